@@ -47,6 +47,8 @@ type sumdbServer struct {
 	mu     sync.Mutex
 	bad    []string
 	reqs   []string
+	// prefix: the path component of the log's base URL ("" or "/a/b").
+	prefix string
 }
 
 func (s *sumdbServer) ReadHashes(idx []int64) ([]tlog.Hash, error) {
@@ -68,6 +70,13 @@ func (s *sumdbServer) RoundTrip(r *http.Request) (*http.Response, error) {
 	s.mu.Lock()
 	s.reqs = append(s.reqs, p)
 	s.mu.Unlock()
+	if !strings.HasPrefix(p, s.prefix+"/") {
+		s.mu.Lock()
+		s.bad = append(s.bad, fmt.Sprintf("%s: not below the log's base URL path %q", p, s.prefix))
+		s.mu.Unlock()
+		return mk(404, nil)
+	}
+	p = strings.TrimPrefix(p, s.prefix)
 	if p == "/latest" {
 		return mk(200, s.latest)
 	}
@@ -220,6 +229,39 @@ func c18(tier string) int {
 			}
 		}
 	}
+	// The same under base URLs that have a path component (a sumdb behind a
+	// proxy or mirror): every request stays below the base.
+	for _, prefix := range []string{"/mirror", "/sumdb/sum.golang.org"} {
+		scp := client.NewSumDB(8, u0.K1.Verif, "http://sumdb.test"+prefix, &http.Client{Transport: rec})
+		for _, n := range []int64{0, 1, 255, 999, 1000, 1001, 999999, 1000000, 123456789} {
+			for level := 0; level <= 7; level++ {
+				for _, w := range wsub {
+					partial := w
+					if w == 256 {
+						partial = -1
+					}
+					_, _ = scp.TileData(level, int(n), partial)
+					got := last()
+					want := prefix + "/" + tlog.Tile{H: 8, L: level, N: n, W: w}.Path()
+					evals++
+					if got != want {
+						run.Report(fmt.Sprintf("tile-path kind=hash base-url-with-path carry=%v partial=%v", n >= 1000, w < 256), fmt.Sprintf("base URL http://sumdb.test%s: TileData(level=%d, offset=%d, width=%d) requested %s, want %s", prefix, level, n, w, got, want), map[string]any{"kind": "tile-path", "level": level, "n": n, "w": w, "prefix": prefix})
+					}
+				}
+			}
+			_, _ = scp.FullLeavesAtOffset(int(n))
+			got := last()
+			evals++
+			if want := prefix + "/" + (tlog.Tile{H: 8, L: -1, N: n, W: 256}).Path(); got != want {
+				run.Report("tile-path kind=data-full base-url-with-path", fmt.Sprintf("base URL http://sumdb.test%s: FullLeavesAtOffset(%d) requested %s, want %s", prefix, n, got, want), map[string]any{"kind": "tile-path", "level": -1, "n": n, "w": 256, "prefix": prefix})
+			}
+		}
+		_, _ = scp.LatestCheckpoint()
+		evals++
+		if got := last(); got != prefix+"/latest" {
+			run.Report("latest-path base-url-with-path", fmt.Sprintf("base URL http://sumdb.test%s: LatestCheckpoint requested %s", prefix, got), map[string]any{"kind": "tile-path", "prefix": prefix})
+		}
+	}
 	run.Set("tile_coordinates_checked", evals)
 	run.Set("tile_indices", len(idxSet))
 	run.Sample(map[string]any{"TileData": "level=3 offset=1000999 width=37", "expected": "/" + tlog.Tile{H: 8, L: 3, N: 1000999, W: 37}.Path()})
@@ -255,11 +297,20 @@ func c18(tier string) int {
 		cps[n] = u.Sign(uni.Body(origin, uint64(n), u.Main.Root(n)), u.K1.Signer)
 	}
 	cl, _ := config.NewLog(origin, u.K1.VKey, "http://sumdb.test")
-	type pair struct{ from, to int }
+	const feedPrefix = "/mirror/sum.golang.org"
+	clP, _ := config.NewLog(origin, u.K1.VKey, "http://sumdb.test"+feedPrefix)
+	type pair struct {
+		from, to int
+		prefixed bool
+	}
 	var pairs []pair
 	for to := 2; to <= maxN; to++ {
 		for from := 1; from < to; from++ {
-			pairs = append(pairs, pair{from, to})
+			pairs = append(pairs, pair{from, to, false})
+			// ... and behind a base URL with a path component (all pairs up to 40, then the tile boundaries).
+			if to <= 40 || to%256 <= 1 || from%256 == 0 {
+				pairs = append(pairs, pair{from, to, true})
+			}
 		}
 	}
 	// Pairs whose proofs touch full tiles above level 0 (to >= 65536), incl.
@@ -267,7 +318,7 @@ func c18(tier string) int {
 	for _, to := range []int{65535, 65536, 65537, 65613, bigN} {
 		for _, from := range []int{1, 100, 128, 255, 256, 257, 300, 511, 512, 4096, 65535, 65536} {
 			if from < to {
-				pairs = append(pairs, pair{from, to})
+				pairs = append(pairs, pair{from, to, false}, pair{from, to, true})
 			}
 		}
 	}
@@ -283,12 +334,16 @@ func c18(tier string) int {
 			// every time (cheap in-memory).
 			for p := range ch {
 				srv := &sumdbServer{hashes: srvAll.hashes, size: int64(p.to), latest: cps[p.to]}
+				cl := cl
+				if p.prefixed {
+					srv.prefix, cl = feedPrefix, clP
+				}
 				witCP := u.Sign(uni.Body(origin, uint64(p.from), u.Main.Root(p.from)), u.K1.Signer, u.W1.CosigSigner)
 				sw := &c18Witness{latest: witCP}
 				ctx, release := wh.NoRetryContext(context.Background())
 				err := sumdb.FeedLog(ctx, cl, sw, &http.Client{Transport: srv}, 0)
 				release()
-				rep := map[string]any{"kind": "sumdb-proof", "from": p.from, "to": p.to}
+				rep := map[string]any{"kind": "sumdb-proof", "from": p.from, "to": p.to, "base_url_with_path": p.prefixed}
 				sig := func(k string) string {
 					return fmt.Sprintf("%s from-tile-boundary=%v to-tile-boundary=%v", k, p.from%256 == 0, p.to%256 == 0)
 				}
@@ -350,6 +405,6 @@ func c18(tier string) int {
 	run.Set("evaluations", evals)
 	run.Set("distinct_nontrivial", int(evals))
 	run.Set("exhaustive", true)
-	run.Set("rule", fmt.Sprintf("addressing: for every level 0..7, every index 0..2100 plus every carry boundary of the x%%03d encoding up to 10^9 (+-1), widths 1..256 (all widths on indices <= 40 and around multiples of 1000, 8 boundary widths elsewhere): the path requested by SumDBClient.TileData / FullLeavesAtOffset / PartialLeavesAtOffset (observed at the HTTP transport) equals tlog.Tile.Path(). Proofs: the real sumdb.FeedLog (interval 0) for ALL pairs 1 <= from < to <= %d plus 59 pairs reaching up to 70 000 leaves (full tiles above level 0, the same tile index at two levels within one proof) against an in-process server that serves /latest and tlog tiles of a generated tree and rejects any tile that does not exist at that size or is requested with a wrong width; the proof handed to the witness must verify with the independent RFC 6962 reference and merkle/proof, and (boundary pairs and every 7th pair) be accepted by the real witness. distinct_nontrivial = coordinates + feed cycles, all distinct by construction", maxN))
+	run.Set("rule", fmt.Sprintf("base URLs: host only, and (reduced coordinate set / pairs up to 40 + tile boundaries + the large pairs) with a one- and a two-segment path component - every request must stay below the base; addressing: for every level 0..7, every index 0..2100 plus every carry boundary of the x%%03d encoding up to 10^9 (+-1), widths 1..256 (all widths on indices <= 40 and around multiples of 1000, 8 boundary widths elsewhere): the path requested by SumDBClient.TileData / FullLeavesAtOffset / PartialLeavesAtOffset (observed at the HTTP transport) equals tlog.Tile.Path(). Proofs: the real sumdb.FeedLog (interval 0) for ALL pairs 1 <= from < to <= %d plus 59 pairs reaching up to 70 000 leaves (full tiles above level 0, the same tile index at two levels within one proof) against an in-process server that serves /latest and tlog tiles of a generated tree and rejects any tile that does not exist at that size or is requested with a wrong width; the proof handed to the witness must verify with the independent RFC 6962 reference and merkle/proof, and (boundary pairs and every 7th pair) be accepted by the real witness. distinct_nontrivial = coordinates + feed cycles, all distinct by construction", maxN))
 	return run.Finish()
 }
